@@ -274,11 +274,29 @@ def check(ctx):
     for key in ('VolumeSSASimulator', 'DelayVolumeSSASimulator'):
         sl_ = simloop.SimLoop(ctx, key)
         pr_, n_ = simloop.event_race(sl_)
-        pr2_, n2_ = simloop.event_race_run(sl_)
+        try:
+            pr2_, n2_ = simloop.event_race_run(sl_)
+        except AnalysisError as e_:
+            # the scripted run cannot be evaluated on this source (a value the evaluator does not know decides the control flow): this
+            # rule gives no verdict - the path rules of the property do - and says so
+            ctx.note('R11.2-event-race %s: the scripted run was not evaluated (%s)' % (key, e_))
+            pr2_, n2_ = [], 0
         if pr_ is None:     # a pass is not evaluable in isolation (it reads locals carried between passes): the run decides
             pr_, n_ = [], 0
         ctx.ob('R11.2-event-race', key, not pr_ and not pr2_, sl_.where, RACE_WHAT % (n_, n2_), '; '.join((pr2_ + pr_)[:2]))
     check_growth(ctx)
+    # a 'general' rate sees the volume through its compiled expression: every node computes its operator over its children evaluated
+    # with the same volume, and the translation builds the tree of the written formula (C02 R2.1 / R2.2) - re-emitted here
+    from ..core import SubCtx
+    from . import c02
+    sub = SubCtx(ctx)
+    c02.check_nodes(sub)
+    c02.check_translation(sub)
+    c02.check_users(sub)
+    for rule, key, ok, where, what, detail in sub.got:
+        if (rule == 'R2.1-node-semantics' and key.endswith('.volume_evaluate')) or rule == 'R2.2-translation' or \
+                (rule == 'R2.1-users' and key == 'GeneralPropensity.get_volume_propensity'):
+            ctx.ob('R11.1-general-rates', '%s/%s' % (rule, key), ok, where, what, detail)
     ctx.floor('R11.1-volume-formula', 16)
     ctx.floor('R11.2-pairing', 2)
     ctx.floor('R11.5-growth-law', 3)
